@@ -62,6 +62,11 @@ struct P : policy::basic_policy<P, sym_rtti, policy::checked_perfect_hash<P>, po
 struct P : policy::basic_policy<P, sym_rtti, policy::fast_perfect_hash<P>, policy::vptr_vector<P> IND_FACET, rec_error> {};
 #endif
 
+#if MODE == 4
+// C14: a second policy re-bound from P; it is updated on the very same ids just before P is
+struct Q : P::rebind<Q> {};
+#endif
+
 // class record shaped like generic_compiler::class_ as seen by publish_vptrs
 static type_id ids0[2], ids1[2], ids2[2], ids3[2];  // standalone arrays: keeps CBMC's accesses typed
 struct Rec {
@@ -159,7 +164,29 @@ extern "C" void cbmc_main() {
         P::publish_vptrs(b2, e2);
     }
 #endif
+#if MODE == 4
+    Q::publish_vptrs(It{0}, It{n});
+    // Q's installed state, to be found unchanged after P's update
+    type_id q_mult = Q::hash_mult; std::size_t q_shift = Q::hash_shift, q_length = Q::hash_length, q_vn = Q::vptrs.size();
+    const std::uintptr_t* q_v[HASHCAP];
+    for (unsigned i = 0; i < HASHCAP; i++) q_v[i] = i < q_vn ? Q::vptrs[i] : nullptr;
+#if CHECKED
+    std::size_t q_cn = Q::control.size(); type_id q_c[HASHCAP];
+    for (unsigned i = 0; i < HASHCAP; i++) q_c[i] = i < q_cn ? Q::control[i] : 0;
+#endif
+#endif
     P::publish_vptrs(It{0}, It{n});
+#if MODE == 4
+    {
+        bool same = Q::hash_mult == q_mult && Q::hash_shift == q_shift && Q::hash_length == q_length && Q::vptrs.size() == q_vn;
+        for (unsigned i = 0; i < HASHCAP; i++) if (i < q_vn) same = same && Q::vptrs[i] == q_v[i];
+#if CHECKED
+        same = same && Q::control.size() == q_cn;
+        for (unsigned i = 0; i < HASHCAP; i++) if (i < q_cn) same = same && Q::control[i] == q_c[i];
+#endif
+        verif_assert(same, 30);  // updating P changed Q's hash state
+    }
+#endif
     // normal return: installed hash is perfect on the registered ids
     verif_assert(got_hash_search_error == 0 && got_unknown_class == 0 && got_other_error == 0, 2);
     verif_assert(P::hash_length <= P::vptrs.size(), 3);
